@@ -34,6 +34,49 @@ def contains(chars_re):
     return z3.Concat(ANY, chars_re, ANY)
 
 
+def nested_unbounded_repeat(pattern):
+    """ True if an unbounded repeat contains (through groups / alternations) another unbounded repeat: the shape that makes
+        Python's backtracking matcher exponential on non-matching input, e.g. (a|b+)*   (bounded-time clause of C01) """
+    C = lexre.C
+
+    def has_unbounded(seq):
+        for op, av in seq:
+            if op in (C.MAX_REPEAT, C.MIN_REPEAT):
+                if av[1] == C.MAXREPEAT:
+                    return True
+                if has_unbounded(av[2]):
+                    return True
+            elif op == C.SUBPATTERN:
+                if has_unbounded(av[3]):
+                    return True
+            elif op == C.BRANCH:
+                if any(has_unbounded(alt) for alt in av[1]):
+                    return True
+            elif op in (C.ASSERT, C.ASSERT_NOT):
+                if has_unbounded(av[1]):
+                    return True
+        return False
+
+    def walk(seq):
+        for op, av in seq:
+            if op in (C.MAX_REPEAT, C.MIN_REPEAT):
+                if av[1] == C.MAXREPEAT and has_unbounded(av[2]):
+                    return True
+                if walk(av[2]):
+                    return True
+            elif op == C.SUBPATTERN:
+                if walk(av[3]):
+                    return True
+            elif op == C.BRANCH:
+                if any(walk(alt) for alt in av[1]):
+                    return True
+            elif op in (C.ASSERT, C.ASSERT_NOT):
+                if walk(av[1]):
+                    return True
+        return False
+    return walk(list(lexre.sre_parse.parse(pattern)))
+
+
 def obligations(repo):
     rs = rules(repo)
     by = {r['name']: r for r in rs}
@@ -46,6 +89,9 @@ def obligations(repo):
     def before(a, b):
         add('L1.order.%s<%s' % (a, b), a in order and b in order and order.index(a) < order.index(b), 'rule order %r' % (order,))
     add('L1.whitespace-first', order[0] == 'WHITESPACE', order[0])
+    for r in rs:
+        add('L0.no-nested-unbounded-repeat.%s' % r['name'], not nested_unbounded_repeat(r['pattern']),
+            'an unbounded repeat inside an unbounded repeat: exponential backtracking on non-matching input (%s)' % r['pattern'])
     add('L2.whitespace-discarded', not by['WHITESPACE']['returns'], 't_WHITESPACE returns a token')
     for a, b in (('STRING', 'QUOTATION'), ('STRING', 'APOSTROPHE'), ('FUNCTION', 'ABSOLUTE_CELL'), ('FUNCTION', 'RELATIVE_CELL'),
                  ('FUNCTION', 'VARIABLE'), ('ABSOLUTE_CELL', 'MIXED_CELL'), ('MIXED_CELL', 'RELATIVE_CELL'), ('RELATIVE_CELL', 'VARIABLE'),
